@@ -41,14 +41,19 @@ def _send(e, c, a):
     if s.ch.receivers == 0: return Err(Struct([a[1]]))
     s.ch.q.append(a[1]); s.ch.sent += 1
     return Ok(UNIT)
-def visible(e, ch):
+def next_visible(e, ch):
+    """is the next queued message already visible to the polling thread?  A harness may make this a symbolic
+    condition (hooks['chan_cut'](e, ch) -> z3 Bool): the poll then sees an arbitrary prefix of what was sent."""
+    if ch.head >= len(ch.q): return False
     cut = e.hooks.get('chan_cut')
-    if cut is None: return len(ch.q)
-    return cut(e, ch)
+    if cut is None: return True
+    return e.branch(cut(e, ch))
+def visible(e, ch):
+    return len(ch.q)
 @lmodel('Receiver::try_recv')
 def _try_recv(e, c, a):
     r = unguard(a[0]); ch = r.ch
-    if ch.head < visible(e, ch):
+    if next_visible(e, ch):
         m = ch.q[ch.head]; ch.head += 1; return Ok(m)
     if ch.senders == 0 and ch.head >= len(ch.q): return Err(Enum('Disconnected', [], 'TryRecvError'))
     return Err(Enum('Empty', [], 'TryRecvError'))
